@@ -17,19 +17,59 @@ var inflaters = sync.Pool{New: func() interface{} { return flate.NewReader(bytes
 // is an independent stream (no context takeover, the only mode the library
 // negotiates).
 func Inflate(wire []byte) ([]byte, error) {
-	const tail = "\x00\x00\xff\xff\x01\x00\x00\xff\xff"
-	src := bytes.NewReader(append(append(make([]byte, 0, len(wire)+len(tail)), wire...), tail...))
-	fr := inflaters.Get().(io.ReadCloser) // bytes.Reader is an io.ByteReader: flate consumes exactly what it decodes
+	src := &tailReader{a: wire, b: inflateTail}
+	fr := inflaters.Get().(io.ReadCloser) // src is an io.ByteReader: flate consumes exactly what it decodes
 	fr.(flate.Resetter).Reset(src, nil)
-	out, err := io.ReadAll(fr)
+	var out bytes.Buffer
+	out.Grow(2*len(wire) + 64)
+	_, err := out.ReadFrom(fr)
 	inflaters.Put(fr)
+	res := out.Bytes()
+	if res == nil {
+		res = []byte{}
+	}
 	if err != nil {
-		return out, err
+		return res, err
 	}
-	if src.Len() > len(tail) {
-		return out, fmt.Errorf("deflate stream ended %d bytes before the end of the message payload", src.Len()-len(tail))
+	if left := src.left(); left > len(inflateTail) {
+		return res, fmt.Errorf("deflate stream ended %d bytes before the end of the message payload", left-len(inflateTail))
 	}
-	return out, nil
+	return res, nil
+}
+
+var inflateTail = []byte("\x00\x00\xff\xff\x01\x00\x00\xff\xff")
+
+// tailReader reads a then b without copying them together.
+type tailReader struct {
+	a, b []byte
+	i    int
+}
+
+func (t *tailReader) left() int { return len(t.a) + len(t.b) - t.i }
+
+func (t *tailReader) ReadByte() (byte, error) {
+	switch {
+	case t.i < len(t.a):
+		t.i++
+		return t.a[t.i-1], nil
+	case t.i < len(t.a)+len(t.b):
+		t.i++
+		return t.b[t.i-1-len(t.a)], nil
+	}
+	return 0, io.EOF
+}
+
+func (t *tailReader) Read(p []byte) (int, error) {
+	n := 0
+	if t.i < len(t.a) {
+		n = copy(p, t.a[t.i:])
+	} else if t.i < len(t.a)+len(t.b) {
+		n = copy(p, t.b[t.i-len(t.a):])
+	} else {
+		return 0, io.EOF
+	}
+	t.i += n
+	return n, nil
 }
 
 // Deflate is the sender side of RFC 7692 §7.2.1 using compress/flate: compress,
